@@ -107,6 +107,28 @@ def try_family():
                             yield (('try', rz, body, hn, hb, eb, fb), ('use', 'a'))
 
 
+def loops3_family():
+    """three nested loops with a leaf in the innermost body, after the innermost loop and after the middle loop,
+    with and without the variables bound before (definitions carried by the OUTER back edge into inner loops)"""
+    L = [('bind', 'a'), ('use', 'a'), ('mov', 'a', 'b'), ('use', 'b'), ('mov', 'b', 'a')]
+
+    def loop(kind, body):
+        return ('for', 'a', body, ()) if kind == 'for' else ('while', body, ())
+    import itertools
+    for k1, k2, k3 in itertools.product(('for', 'while'), repeat=3):
+        for l3, l2, l1 in itertools.product(L, repeat=3):
+            inner = loop(k3, (l3,))
+            mid = loop(k2, (inner, l2))
+            outer = loop(k1, (mid, l1))
+            yield (outer,)
+            yield (('bind', 'b'), outer, ('use', 'a'))
+    # two loops deep with a second loop inside the inner body
+    for k1, k2 in itertools.product(('for', 'while'), repeat=2):
+        for l3, l2, l1 in itertools.product(L, repeat=3):
+            inner = loop(k2, (loop('while', (l3,)), loop('for', (('use', 'b'),)), l2))
+            yield (loop(k1, (inner, l1)),)
+
+
 def feature_pairs():
     """two features in one program (the second one next to the first): every ordered pair, variable a then b"""
     names = sorted(features.FEATURES)
@@ -145,6 +167,9 @@ def space(tier):
     for p in try_family():
         if p not in core:
             out.append(('try6', p))
+    for p in loops3_family():
+        if p not in core:
+            out.append(('loops3', p))
     for p in ps.programs(kctl, 2, ctl=True):
         if p not in core:
             out.append(('ctl', p))
@@ -200,7 +225,7 @@ def run_names(ctx, prop):
         'rule': 'every program of the bounded grammar (core k/d bounds, control-flow leaves, one substituted feature) '
                 'and EVERY CPython execution of it (branch outcomes, 0..2 loop trips, raise decisions); distinct_nontrivial = programs '
                 'with a read that has >=2 reaching sites or a maybe-unbound path',
-        'space': {o: int(c['programs_' + o]) for o in ('core', 'core-d3', 'ret5', 'try6', 'ctl', 'feat', 'feat2') if c['programs_' + o]},
+        'space': {o: int(c['programs_' + o]) for o in ('core', 'core-d3', 'ret5', 'try6', 'loops3', 'ctl', 'feat', 'feat2') if c['programs_' + o]},
         'features': sorted(features.FEATURES),
         'reads': int(c['reads']),
         'checked': {k: int(v) for k, v in c.items() if k.startswith('c0')},
